@@ -73,6 +73,12 @@ inductive Err where
   | concatMissingRightToken
   | concatFailed
   | failedToFindFile (name : String)
+  /-- `#pragma` whose first token is not `once` / `warning` (or is missing) -/
+  | unknownPragma
+  /-- a directive whose name is none of `preprocess_command`'s -/
+  | unknownCommand
+  /-- `#include` whose operand is not exactly one string literal / header name -/
+  | invalidInclude
   /-- a Rust panic site -/
   | panic (site : String)
   /-- `find_single_macro` would spin on a `Concat` token in the early region -/
